@@ -218,8 +218,12 @@ class AudioSim(AoefSim):
     def rec_path(self, op, f):
         """Recording.path and audio_dir as the caller would hold them."""
         full = self.apath(f)
+        root = os.path.join(self.run_dir, "audio")
+        if op.get("relative") == "cwd":
+            # relative to the caller's working directory, no audio_dir: the
+            # node changes into the audio directory before the call
+            return os.path.relpath(full, root), "cwd:" + root
         if op.get("relative"):
-            root = os.path.join(self.run_dir, "audio")
             return os.path.relpath(full, root), root
         return full, None
 
@@ -397,6 +401,8 @@ class AudioSim(AoefSim):
             self.probes.hit("C15:clip-stale-metadata")
         if spec["time_expansion"] != 1.0:
             self.probes.hit("C15:clip-time-expansion")
+        if str(rec["audio_dir"] or "").startswith("cwd:"):
+            self.probes.hit("C15:clip-path-relative-to-working-directory")
         if Fraction(start) * sr != math.floor(Fraction(start) * sr):
             self.probes.hit("C15:clip-start-off-boundary")
         shape = reply["shape"]
@@ -658,7 +664,7 @@ def draw_run_cfg(rng, focus, tier):
         "faults": rng.random() < 0.5,
         "file_faults": rng.random() < 0.7,
         "p_boundary": rng.choice([0.2, 0.5, 0.8]),
-        "relative": rng.random() < 0.4,
+        "relative": rng.choice([False, False, True, "cwd"]),
         "bits": rng.choice([[16], [16], [16, 24, 32], [24], [32]]),
     }
 
@@ -952,6 +958,7 @@ CORE_PROBES = {
         "C15:clip-stale-metadata",
         "C15:clip-time-expansion",
         "C15:clip-start-off-boundary",
+        "C15:clip-path-relative-to-working-directory",
         "C15:load_recording-checked",
         "C15:resample-checked",
         "C15:spectrogram-checked",
